@@ -8,7 +8,10 @@ closure update (R9.2) and that writer and readers agree on argument roles
 """
 from sa.core import rule, AnalysisError
 from sa import cxx
-from sa.cxx import term, uncast, inner, strip
+from sa.cxx import term, inner, strip
+from rules._util_c09c04 import (Sym, uncast, uncast_v, is_int as _is_int, truth,
+                                subterms, pure_term, walk_sem, calls_to,
+                                desugared, canon_type, ASSIGN_OPS, INCDEC)
 
 TECHNIQUE = ("static analysis: schema matching of clang AST terms against the "
              "bit-matrix incremental-closure algorithm; role/dimension check "
@@ -22,22 +25,41 @@ EXPLANATION = (
     "so R'(d)=R(d): one `R(i) |= R(d)` for every i with s in R(i) restores I, "
     "and the in-place update is safe because row d changes only when i=d, a "
     "no-op. Hence is_reachable(a,b) = bit b of row a = path existence. R9.1 "
-    "matches reachable.cc statement by statement against exactly this "
-    "algorithm (S1 64-bit cells; S2 add_node: id = old count, bucket count = "
+    "matches reachable.cc against exactly this algorithm (S1 64-bit cells, "
+    "read from the desugared type of adj_ so a `using Row = ...` alias does "
+    "not matter; S2 add_node: id = old count, bucket count = "
     "ceil(n/64), every row resized with zero fill, diagonal bit set; S3 "
     "add_connection: all rows, guard = bit src of row i, all buckets, row_i "
     "|= row_dst, no other write; S4 is_reachable = bit dst of row src; S5 "
-    "bit(k) = 64-bit 1 << (k mod 64)), accepting only listed equivalent "
-    "idioms; an unknown idiom is an ANALYSIS-ERROR, not a pass. R9.2: every "
+    "bit(k) = 64-bit 1 << (k mod 64)).  The match is made on a normal form "
+    "of the functions, not on their statement layout: calls to helpers of "
+    "the same class / file are inlined (`return E;` helpers by substitution "
+    "with the parameter and return conversions kept when narrower than 64 "
+    "bit, void helpers statement by statement), single-assignment locals, "
+    "references and pointers are replaced by their definition, an index loop "
+    "`for (i = 0; i < B; i++)` and a range-for by reference over adj_ (all "
+    "rows: adj_.size() == num_nodes_ is established by S2 and the "
+    "no-other-writer instances) are the same loop, `if (!g) continue; rest` "
+    "is `if (g) { rest }`, and `x ? true : false`, `x != 0`, `!!x` and the "
+    "conversion to bool are the same condition.  Only listed equivalent "
+    "idioms are accepted; an unknown idiom (other control flow in a loop, a "
+    "reassigned local, a copy instead of a reference, a call that may write "
+    "the matrix and cannot be inlined) is an ANALYSIS-ERROR, not a pass.  A "
+    "helper that writes the matrix is accepted only when it was inlined into "
+    "add_node/add_connection and has no other caller. R9.2: every "
     "function that stores an edge calls add_connection on the same path, and "
     "NewCFGNode calls add_node and checks the returned id against the node "
     "id. R9.3: the argument-role permutation at each reader is the inverse "
-    "of the writer's. Not decided: std::vector semantics, int overflow of "
-    "node ids beyond 2^31.")
+    "of the writer's; arguments hoisted into single-assignment locals are "
+    "resolved, and a query made inside a lambda (std::any_of / all_of / "
+    "none_of predicate) is read from the instantiated call operator. Not "
+    "decided: std::vector semantics, int overflow of node ids beyond 2^31.")
 ASSUMPTIONS = [
     "std::vector::resize(n, v) value-fills new elements and keeps old ones; "
-    "operator[] / data() address the same storage",
-    "node ids fit in int (fewer than 2^31 CFG nodes)",
+    "operator[] / data() address the same storage; a range-for visits every "
+    "element once",
+    "node ids fit in int (fewer than 2^31 CFG nodes), so int<->size_t "
+    "conversions of ids and `>> 6` vs `/ 64` agree",
     "clang's AST is the trusted parser/resolver",
 ]
 
@@ -45,11 +67,7 @@ RC = "pytype/typegraph/reachable.cc"
 W64 = {"long", "long long", "std::int64_t", "int64_t", "unsigned long",
        "unsigned long long", "std::uint64_t", "uint64_t", "__int64_t",
        "__uint64_t"}
-
-
-def _is_int(t, v):
-  t = uncast(t)
-  return isinstance(t, tuple) and t[0] == "int" and t[1] == v
+RA = "ReachabilityAnalyzer"
 
 
 def _bucket(t, x):
@@ -71,8 +89,43 @@ def _one64(t):
   if isinstance(t, tuple) and t[0] == "int" and t[1] == 1:
     return t[2] in W64
   if isinstance(t, tuple) and t[0] == "cast":
-    ty = t[1].replace("const ", "").strip()
-    return ty in W64 and _is_int(t[2], 1)
+    return canon_type(t[1]) in W64 and _is_int(t[2], 1)
+  return False
+
+
+def _rooted(t):
+  """The term designates (part of) a ReachabilityAnalyzer field."""
+  while isinstance(t, tuple) and t:
+    if t[0] == "field":
+      return str(t[1]).startswith(RA + "::")
+    if t[0] in ("index", "data", "*", "cast") or (t[0] == "&" and len(t) == 2):
+      t = t[2] if t[0] == "cast" else t[1]
+      continue
+    return False
+  return False
+
+
+def _term_writes(t):
+  """The evaluated term may change the matrix (conservative)."""
+  for s in subterms(t):
+    if not s:
+      continue
+    h = s[0]
+    if h in ASSIGN_OPS and len(s) == 3 and _rooted(s[1]):
+      return True
+    if h in INCDEC and _rooted(s[1]):
+      return True
+    if h == "mcall":
+      if s[1] in cxx.MUTATORS and _rooted(s[2]):
+        return True
+      if "::" in str(s[1]) and (str(s[1]).startswith(RA + "::") and
+                                not str(s[1]).endswith(" const")):
+        return True
+      if "::" in str(s[1]) and any(_rooted(a) for a in s[2:]):
+        return True
+    if h == "call" and (any(_rooted(a) for a in s[2:]) or
+                        str(s[1]).startswith(RA + "::")):
+      return True
   return False
 
 
@@ -87,65 +140,51 @@ class Schema:
         else ix.find("ReachabilityAnalyzer::add_connection")[0]
     self.is_reach = ix.find("ReachabilityAnalyzer::is_reachable")[0]
     self.F = lambda n: ("field", f"ReachabilityAnalyzer::{n}", ("this",))
-    self.bit_fns = {}
+    self.sym = Sym(ix, self.inline_ok)
 
-  # bit(k): literal shift, or a call to a helper whose body is exactly that
+  def inline_ok(self, fn):
+    if fn.kind in ("CXXConstructorDecl", "CXXDestructorDecl"):
+      return False
+    return fn.cls == RA or (fn.cls is None and fn.file.endswith(
+        ("typegraph/reachable.cc", "typegraph/reachable.h")))
+
+  # bit(k): a 64-bit one shifted by k mod 64 (helpers are already inlined)
   def is_bit(self, t, x):
-    t0 = t
-    t = uncast(t)
-    if isinstance(t, tuple) and t[0] == "<<" and _one64(t[1]) and _lane(t[2], x):
-      return True
-    if isinstance(t, tuple) and t[0] == "call" and len(t) == 3 and uncast(t[2]) == x:
-      return self._bit_helper(t[1])
-    return False
-
-  def _bit_helper(self, key):
-    if key in self.bit_fns:
-      return self.bit_fns[key]
-    fn = self.ix.by_key.get(key)
-    ok = False
-    if fn is not None and fn.body is not None and len(fn.params) == 1:
-      stmts = [s for s in inner(fn.body) if s.get("kind") != "NullStmt"]
-      if len(stmts) == 1 and stmts[0].get("kind") == "ReturnStmt":
-        p = fn.params[0]
-        pv = ("var", p.get("name"), p["id"])
-        body = term(self.ix, inner(stmts[0])[0])
-        ok = self.is_bit(body, pv) and any(
-            w in fn.sig.split("(")[0] for w in W64)
-    self.bit_fns[key] = ok
-    return ok
-
-  def cell(self, row, col):
-    return ("index", ("index", self.F("adj_"), row), col)
+    t = uncast_v(t)
+    return isinstance(t, tuple) and len(t) == 3 and t[0] == "<<" and \
+        _one64(t[1]) and _lane(t[2], x)
 
   def is_cell(self, t, row_pred, col_pred):
-    t = uncast(t)
+    t = uncast_v(t)
     return (isinstance(t, tuple) and t[0] == "index" and col_pred(t[2])
             and isinstance(t[1], tuple) and t[1][0] == "index"
             and t[1][1] == self.F("adj_") and row_pred(uncast(t[1][2])))
 
+  def touches(self, it):
+    """The item may write the matrix, or hides control flow."""
+    if it.kind in ("expr", "decl"):
+      return _term_writes(it.term) or _touches_matrix(self.ix, it.node)
+    if it.kind in ("if", "loop"):
+      return any(self.touches(x) for x in (it.body or []) + (it.orelse or [])) \
+          or (it.kind == "if" and _term_writes(it.term))
+    return True   # return / break / continue / other: never skipped silently
 
-def _loop(ix, s, env):
-  """(var, bound_term, body_stmts) of `for (T i = 0; i < B; i++)`."""
-  if s.get("kind") != "ForStmt":
-    return None
-  init, _, cond, inc, body = (inner(s) + [None] * 5)[:5]
-  if not init or init.get("kind") != "DeclStmt" or len(inner(init)) != 1:
-    raise AnalysisError("for-loop init outside the accepted idiom")
-  v = inner(init)[0]
-  if not inner(v) or not _is_int(term(ix, inner(v)[-1], env), 0):
-    raise AnalysisError("for-loop does not start at 0")
-  var = ("var", v.get("name"), v["id"])
-  c = term(ix, cond, env)
-  if not (isinstance(c, tuple) and c[0] == "<" and uncast(c[1]) == var):
-    raise AnalysisError(f"for-loop condition outside the accepted idiom: {c}")
-  i = term(ix, inc, env)
-  if not (isinstance(i, tuple) and (
-      (i[0] in ("post++", "pre++") and uncast(i[1]) == var) or
-      (i[0] == "+=" and uncast(i[1]) == var and _is_int(i[2], 1)))):
-    raise AnalysisError(f"for-loop increment outside the accepted idiom: {i}")
-  stmts = inner(body) if body.get("kind") == "CompoundStmt" else [body]
-  return var, uncast(c[2]), stmts
+  def all_rows(self, bound):
+    """Loop bound that covers every row of the matrix."""
+    return bound == self.F("num_nodes_") or bound == ("count", self.F("adj_"))
+
+
+def _touches_matrix(ix, s):
+  if s is None:
+    return False
+  for ev in cxx.events(ix, s, {}):
+    if ev.kind in ("write", "addr") and ev.what.startswith("ReachabilityAnalyzer::"):
+      return True
+  return False
+
+
+def _line(n):
+  return ((n.get("range") or {}).get("begin") or {}).get("line") or 0
 
 
 def _locals(ix, fn, stmts, env):
@@ -158,30 +197,15 @@ def _locals(ix, fn, stmts, env):
   return env
 
 
-def _assigned_locals(ix, fn):
-  out = set()
-  for n in cxx.walk(fn.body):
-    if n.get("kind") in ("BinaryOperator", "CompoundAssignOperator") and \
-        n.get("opcode", "").endswith("=") and n.get("opcode") not in ("==", "!=", "<=", ">="):
-      l = strip(inner(n)[0])
-      if l.get("kind") == "DeclRefExpr":
-        out.add((l.get("referencedDecl") or {}).get("id"))
-    if n.get("kind") == "UnaryOperator" and n.get("opcode") in ("++", "--"):
-      l = strip(inner(n)[0])
-      if l.get("kind") == "DeclRefExpr":
-        out.add((l.get("referencedDecl") or {}).get("id"))
-  return out
-
-
-def _touches_matrix(ix, s):
-  for ev in cxx.events(ix, s, {}):
-    if ev.kind in ("write", "addr") and ev.what.startswith("ReachabilityAnalyzer::"):
-      return True
-  return False
-
-
-def _line(n):
-  return ((n.get("range") or {}).get("begin") or {}).get("line") or 0
+def _adj_type(sc):
+  """Desugared type of the adj_ field (typedef / using aliases resolved)."""
+  ix = sc.ix
+  for fn in (sc.add_node, sc.add_conn, sc.is_reach):
+    for n in cxx.walk(fn.body):
+      if n.get("kind") == "MemberExpr" and \
+          ix.fields.get(n.get("referencedMemberDecl")) == "ReachabilityAnalyzer::adj_":
+        return desugared(n)
+  return ix.field_type.get("ReachabilityAnalyzer::adj_", "")
 
 
 @rule("R9.1", "C09", floor=14)
@@ -190,70 +214,74 @@ def r9_1(ctx):
   sc = ctx.memo(("c09",), lambda: Schema(ctx))
   ix = sc.ix
   F = sc.F
+  sym = sc.sym
   # S1 -------------------------------------------------------------------
-  t = ix.field_type.get("ReachabilityAnalyzer::adj_", "")
+  t = _adj_type(sc)
   tt = t.replace(" ", "")
-  ok = tt.startswith("std::vector<std::vector<") and any(
-      tt == f"std::vector<std::vector<{w.replace(' ', '')}>>" for w in W64)
+  ok = any(tt == f"std::vector<std::vector<{w.replace(' ', '')}>>" for w in W64)
   ctx.check(ok, "S1:adj_-type", "pytype/typegraph/reachable.h", 0,
             f"adj_ has type {t}; the algorithm needs vector<vector<64-bit integer>>",
-            {"type": t})
+            {"type": t, "declared": ix.field_type.get("ReachabilityAnalyzer::adj_", "")})
   # S2 add_node ------------------------------------------------------------
   fn = sc.add_node
-  stmts = [s for s in inner(fn.body)]
-  env = {}
+  items = sym.flatten(inner(fn.body), {}, fn)
   node_var = None
   seen = {"count": False, "size": False, "rows": False, "cols": False,
           "diag": False, "ret": False}
   order_ok = True
-  for s in stmts:
-    k = s.get("kind")
-    if k == "DeclStmt":
-      v = inner(s)[0]
-      init = term(ix, inner(v)[-1], env) if inner(v) else None
-      if uncast(init) == ("post++", F("num_nodes_")):
-        node_var = ("var", v.get("name"), v["id"])
+  for it in items:
+    if it.kind == "decl":
+      if uncast(it.term) == ("post++", F("num_nodes_")):
+        node_var = it.var
         seen["count"] = True
         continue
-      if _touches_matrix(ix, s):
-        raise AnalysisError(f"add_node: unknown declaration idiom at line {_line(s)}")
+      if sc.touches(it):
+        raise AnalysisError(f"add_node: unknown declaration idiom at line {it.line}")
       continue
-    if k == "ForStmt":
-      var, bound, body = _loop(ix, s, env)
-      if len(body) != 1:
+    if it.kind == "loop":
+      body = [b for b in it.body if sc.touches(b)]
+      if len(body) != 1 or body[0].kind != "expr":
+        if not body:
+          continue
         raise AnalysisError("add_node: row loop body is not a single statement")
-      b = term(ix, body[0], env)
-      want = ("mcall", "resize", ("index", F("adj_"), var))
+      b = body[0].term
+      want = ("mcall", "resize", ("index", F("adj_"), it.var))
       ok_body = isinstance(b, tuple) and b[:3] == want and len(b) == 5 and \
           uncast(b[3]) == F("size_") and _is_int(b[4], 0)
-      ok_bound = bound == F("num_nodes_")
-      ctx.check(ok_bound, "S2:row-loop-bound", RC, _line(s),
-                f"the loop resizing rows runs to {bound}; every row i < "
-                "num_nodes_ must be resized", {"bound": str(bound)})
-      ctx.check(ok_body, "S2:row-resize", RC, _line(body[0]),
+      ok_bound = sc.all_rows(it.bound)
+      ctx.check(ok_bound, "S2:row-loop-bound", RC, it.line,
+                f"the loop resizing rows runs to {it.bound}; every row i < "
+                "num_nodes_ must be resized", {"bound": str(it.bound)})
+      ctx.check(ok_body, "S2:row-resize", RC, body[0].line,
                 f"row resize is {b}; expected adj_[i].resize(size_, 0)",
                 {"stmt": str(b)})
       order_ok &= seen["count"] and seen["size"] and seen["rows"]
       seen["cols"] = True
       continue
-    if k == "ReturnStmt":
-      r = term(ix, inner(s)[0], env)
+    if it.kind == "return":
+      r = it.term
       ctx.check(node_var is not None and uncast(r) == node_var, "S2:returns-new-id",
-                RC, _line(s), f"add_node returns {r}, not the id allotted",
+                RC, it.line, f"add_node returns {r}, not the id allotted",
                 {"ret": str(r)})
       seen["ret"] = True
       continue
-    t = term(ix, s, env)
+    if it.kind != "expr":
+      if sc.touches(it):
+        raise AnalysisError(f"add_node: statement outside the schema at line {it.line}: {it.kind}")
+      continue
+    t = it.term
     if isinstance(t, tuple) and t[0] == "=" and uncast(t[1]) == F("size_"):
       rhs = uncast(t[2])
-      ok = isinstance(rhs, tuple) and (
-          (rhs[0] == "/" and _is_int(rhs[2], 64) and uncast(rhs[1]) in (
-              ("+", F("num_nodes_"), ("int", 63, "int")),)) or
-          (rhs[0] == ">>" and _is_int(rhs[2], 6) and uncast(rhs[1])[0] == "+"))
+      ok = isinstance(rhs, tuple) and len(rhs) == 3 and (
+          (rhs[0] == "/" and _is_int(rhs[2], 64)) or
+          (rhs[0] == ">>" and _is_int(rhs[2], 6)))
       if ok:
         inner_sum = uncast(rhs[1])
-        ok = uncast(inner_sum[1]) == F("num_nodes_") and _is_int(inner_sum[2], 63)
-      ctx.check(ok, "S2:bucket-count", RC, _line(s),
+        ok = isinstance(inner_sum, tuple) and len(inner_sum) == 3 and \
+            inner_sum[0] == "+" and (
+                (uncast(inner_sum[1]) == F("num_nodes_") and _is_int(inner_sum[2], 63)) or
+                (uncast(inner_sum[2]) == F("num_nodes_") and _is_int(inner_sum[1], 63)))
+      ctx.check(ok, "S2:bucket-count", RC, it.line,
                 f"size_ = {rhs}; expected ceil(num_nodes_/64) = (num_nodes_+63)/64",
                 {"rhs": str(rhs)})
       order_ok &= seen["count"]
@@ -265,18 +293,18 @@ def r9_1(ctx):
       # older rows still have to be widened by the all-rows loop
       order_ok &= seen["count"] and seen["size"]
       seen["rows"] = True
-      ctx.ok("S2:rows-resized", RC, _line(s), {"stmt": str(t), "idiom": "emplace_back(size_, 0)"})
+      ctx.ok("S2:rows-resized", RC, it.line, {"stmt": str(t), "idiom": "emplace_back(size_, 0)"})
       continue
     if isinstance(t, tuple) and t[:3] == ("mcall", "resize", F("adj_")):
       ok = len(t) == 4 and uncast(t[3]) == F("num_nodes_")
-      ctx.check(ok, "S2:rows-resized", RC, _line(s),
+      ctx.check(ok, "S2:rows-resized", RC, it.line,
                 f"adj_.resize args {t[3:]}; expected num_nodes_", {"stmt": str(t)})
       order_ok &= seen["count"]
       seen["rows"] = True
       continue
     if isinstance(t, tuple) and t[0] in ("=", "|=") and node_var is not None and \
         sc.is_cell(t[1], lambda r: r == node_var, lambda c: _bucket(c, node_var)):
-      ctx.check(sc.is_bit(t[2], node_var), "S2:diagonal", RC, _line(s),
+      ctx.check(sc.is_bit(t[2], node_var), "S2:diagonal", RC, it.line,
                 f"the new row gets {t[2]}; expected bit(node) so that every "
                 "node reaches itself", {"rhs": str(t[2])})
       order_ok &= seen["rows"] and seen["cols"]
@@ -284,12 +312,12 @@ def r9_1(ctx):
       continue
     if isinstance(t, tuple) and t[:2] == ("mcall", "resize") and \
         isinstance(t[2], tuple) and t[2][:2] == ("index", F("adj_")):
-      ctx.bad("S2:row-loop-bound", RC, _line(s),
+      ctx.bad("S2:row-loop-bound", RC, it.line,
               f"a single row is resized ({t[2][2]}) outside a loop over all "
               "rows: older rows keep their old bucket count", {"stmt": str(t)})
       continue
-    if _touches_matrix(ix, s):
-      raise AnalysisError(f"add_node: statement outside the schema at line {_line(s)}: {t}")
+    if sc.touches(it):
+      raise AnalysisError(f"add_node: statement outside the schema at line {it.line}: {t}")
   missing = [k for k, v in seen.items() if not v]
   ctx.check(not missing and order_ok, "S2:complete-and-ordered", RC, fn.line,
             f"add_node lacks schema steps {missing} or performs them out of "
@@ -300,127 +328,138 @@ def r9_1(ctx):
     raise AnalysisError("add_connection does not take two parameters")
   src = ("var", fn.params[0].get("name"), fn.params[0]["id"])
   dst = ("var", fn.params[1].get("name"), fn.params[1]["id"])
-  reassigned = _assigned_locals(ix, fn)
-  env = {}
-  outer = None
-  for s in inner(fn.body):
-    if s.get("kind") == "DeclStmt":
-      _locals(ix, fn, [s], env)
-    elif s.get("kind") == "ForStmt":
-      if outer is not None:
-        raise AnalysisError("add_connection: more than one top-level loop")
-      outer = s
-    elif _touches_matrix(ix, s):
-      raise AnalysisError(f"add_connection: statement outside the schema at line {_line(s)}")
-  if any(k in reassigned for k in env):
-    raise AnalysisError("add_connection: a substituted local is reassigned")
-  if outer is None:
-    raise AnalysisError("add_connection: row loop not found")
-  i, bound, body = _loop(ix, outer, env)
-  ctx.check(bound == F("num_nodes_"), "S3:row-loop-bound", RC, _line(outer),
-            f"the outer loop runs to {bound}; every row i < num_nodes_ must be "
-            "considered", {"bound": str(bound)})
-  body = [b for b in body if b.get("kind") != "NullStmt"]
-  if len(body) != 1 or body[0].get("kind") != "IfStmt" or body[0].get("hasElse"):
+  if {fn.params[0]["id"], fn.params[1]["id"]} & sym.assigned(fn):
+    raise AnalysisError("add_connection: a parameter is reassigned")
+
+  def single(items, kind, what):
+    """The one matrix-touching item of a block, which must be of `kind`."""
+    hot = [x for x in items if sc.touches(x)]
+    if len(hot) != 1 or hot[0].kind != kind:
+      if len(hot) > 1 and all(x.kind == kind for x in hot):
+        raise AnalysisError(f"add_connection: more than one {what}")
+      if not hot:
+        raise AnalysisError(f"add_connection: {what} not found")
+      bad = [x for x in hot if x.kind != kind][0]
+      raise AnalysisError(f"add_connection: statement outside the schema at "
+                          f"line {bad.line} (expected the {what})")
+    return hot[0]
+
+  items = sym.flatten(inner(fn.body), {}, fn)
+  outer = single(items, "loop", "row loop")
+  i = outer.var
+  ctx.check(sc.all_rows(outer.bound), "S3:row-loop-bound", RC, outer.line,
+            f"the outer loop runs to {outer.bound}; every row i < num_nodes_ must be "
+            "considered", {"bound": str(outer.bound)})
+  ifs = single(outer.body, "if", "single guarded block of the row loop")
+  if ifs.orelse:
     raise AnalysisError("add_connection: outer loop body is not a single guarded block")
-  ifs = body[0]
-  g = uncast(term(ix, inner(ifs)[0], env))
-  if isinstance(g, tuple) and g[0] == "!=" and _is_int(g[2], 0):
-    g = uncast(g[1])
-  ok = isinstance(g, tuple) and g[0] == "&" and (
+  g = truth(ifs.term)
+  ok = isinstance(g, tuple) and len(g) == 3 and g[0] == "&" and (
       (sc.is_cell(g[1], lambda r: r == i, lambda c: _bucket(c, src)) and sc.is_bit(g[2], src)) or
       (sc.is_cell(g[2], lambda r: r == i, lambda c: _bucket(c, src)) and sc.is_bit(g[1], src)))
-  ctx.check(ok, "S3:guard", RC, _line(ifs),
+  ctx.check(ok, "S3:guard", RC, ifs.line,
             f"guard is {g}; expected adj_[i][src/64] & bit(src) (row i reaches src)",
             {"guard": str(g)})
-  then = inner(ifs)[1]
-  tstmts = inner(then) if then.get("kind") == "CompoundStmt" else [then]
-  env2 = dict(env)
-  inner_loop = None
-  for s in tstmts:
-    if s.get("kind") == "DeclStmt":
-      _locals(ix, fn, [s], env2)
-    elif s.get("kind") == "ForStmt":
-      if inner_loop is not None:
-        raise AnalysisError("add_connection: more than one bucket loop")
-      inner_loop = s
-    elif _touches_matrix(ix, s):
-      raise AnalysisError(f"add_connection: statement outside the schema at line {_line(s)}")
-  if inner_loop is None:
-    raise AnalysisError("add_connection: bucket loop not found")
-  j, jbound, jbody = _loop(ix, inner_loop, env2)
-  ctx.check(jbound == F("size_"), "S3:bucket-loop-bound", RC, _line(inner_loop),
-            f"the inner loop runs to {jbound}; every bucket j < size_ must be "
-            "merged", {"bound": str(jbound)})
-  jbody = [b for b in jbody if b.get("kind") != "NullStmt"]
-  if len(jbody) != 1:
-    raise AnalysisError("add_connection: bucket loop body is not a single statement")
-  u = term(ix, jbody[0], env2)
-  is_or = isinstance(u, tuple) and (
-      u[0] == "|=" or (u[0] == "=" and isinstance(uncast(u[2]), tuple)
-                       and uncast(u[2])[0] == "|"))
-  lhs_ok = isinstance(u, tuple) and sc.is_cell(u[1], lambda r: r == i, lambda c: uncast(c) == j)
+  inner_loop = single(ifs.body, "loop", "bucket loop")
+  j = inner_loop.var
+  ctx.check(inner_loop.bound == F("size_"), "S3:bucket-loop-bound", RC, inner_loop.line,
+            f"the inner loop runs to {inner_loop.bound}; every bucket j < size_ must be "
+            "merged", {"bound": str(inner_loop.bound)})
+  upd = single(inner_loop.body, "expr", "single statement of the bucket loop")
+  u = upd.term
+  is_or = isinstance(u, tuple) and len(u) == 3 and (
+      u[0] == "|=" or (u[0] == "=" and isinstance(uncast_v(u[2]), tuple)
+                       and uncast_v(u[2])[0] == "|" and len(uncast_v(u[2])) == 3))
+  lhs_ok = isinstance(u, tuple) and len(u) == 3 and \
+      sc.is_cell(u[1], lambda r: r == i, lambda c: uncast(c) == j)
   if isinstance(u, tuple) and u[0] == "|=":
     rhs_ok = sc.is_cell(u[2], lambda r: r == dst, lambda c: uncast(c) == j)
   elif is_or:
-    a, b = uncast(u[2])[1], uncast(u[2])[2]
+    a, b = uncast_v(u[2])[1], uncast_v(u[2])[2]
     cell_i = lambda t: sc.is_cell(t, lambda r: r == i, lambda c: uncast(c) == j)
     cell_d = lambda t: sc.is_cell(t, lambda r: r == dst, lambda c: uncast(c) == j)
     rhs_ok = (cell_i(a) and cell_d(b)) or (cell_i(b) and cell_d(a))
   else:
     rhs_ok = False
-  ctx.check(is_or and lhs_ok and rhs_ok, "S3:row-or", RC, _line(jbody[0]),
+  ctx.check(is_or and lhs_ok and rhs_ok, "S3:row-or", RC, upd.line,
             f"update is {u}; expected adj_[i][j] |= adj_[dst][j]",
             {"update": str(u)})
   # S4 is_reachable ---------------------------------------------------------
   fn = sc.is_reach
   src = ("var", fn.params[0].get("name"), fn.params[0]["id"])
   dst = ("var", fn.params[1].get("name"), fn.params[1]["id"])
-  stmts = [s for s in inner(fn.body) if s.get("kind") != "NullStmt"]
-  if len(stmts) != 1 or stmts[0].get("kind") != "ReturnStmt":
+  if {fn.params[0]["id"], fn.params[1]["id"]} & sym.assigned(fn):
+    raise AnalysisError("is_reachable: a parameter is reassigned")
+  items = [x for x in sym.flatten(inner(fn.body), {}, fn)
+           if x.kind != "decl" or sc.touches(x)]
+  if len(items) != 1 or items[0].kind != "return" or items[0].term is None:
     raise AnalysisError("is_reachable: body is not a single return")
-  r = uncast(term(ix, inner(stmts[0])[0]))
-  if isinstance(r, tuple) and r[0] == "?:" and r[2] == ("bool", True) and r[3] == ("bool", False):
-    r = uncast(r[1])
-  if isinstance(r, tuple) and r[0] == "!=" and _is_int(r[2], 0):
-    r = uncast(r[1])
-  ok = isinstance(r, tuple) and r[0] == "&" and (
+  r = truth(items[0].term)
+  ok = isinstance(r, tuple) and len(r) == 3 and r[0] == "&" and (
       (sc.is_cell(r[1], lambda x: x == src, lambda c: _bucket(c, dst)) and sc.is_bit(r[2], dst)) or
       (sc.is_cell(r[2], lambda x: x == src, lambda c: _bucket(c, dst)) and sc.is_bit(r[1], dst)))
-  ctx.check(ok, "S4:query", RC, _line(stmts[0]),
+  ctx.check(ok, "S4:query", RC, items[0].line,
             f"is_reachable returns {r}; expected adj_[src][dst/64] & bit(dst)",
             {"ret": str(r)})
   # S5 bit helper -------------------------------------------------------------
-  used = [k for k, v in sc.bit_fns.items()]
-  for k in used:
-    f = ix.by_key.get(k)
-    ctx.check(sc.bit_fns[k], f"S5:{k.split('(')[0]}", RC, f.line if f else 0,
-              f"{k} is not `64-bit 1 << (k & 63)`", {"helper": k})
-  if not used:
+  n_bit = 0
+  for k in sorted(sym.inlined):
+    f = sym.inlined[k]
+    if len(f.params) != 1 or sym.ret_type(f) == "void":
+      continue
+    pv = ("var", f.params[0].get("name"), f.params[0]["id"])
+    body = sym.inline_expr(f, [pv])
+    core_t = uncast(body)
+    if isinstance(core_t, tuple) and core_t and core_t[0] == "<<":
+      n_bit += 1
+      ctx.check(sc.is_bit(body, pv), f"S5:{k.split('(')[0]}", RC, f.line,
+                f"{k} is not `64-bit 1 << (k & 63)`", {"helper": k, "body": str(body)})
+    elif _bucket(body, pv):
+      ctx.ok(f"S5:{k.split('(')[0]}", RC, f.line,
+             {"helper": k, "role": "word index k / 64", "body": str(body)})
+  if not n_bit:
     ctx.ok("S5:inline-bit", RC, 0, {"note": "bit(k) written inline at each use"})
   # no other function writes the matrix
-  for f in ix.by_key.values():
+  callers = None
+  for f in sorted(ix.by_key.values(), key=lambda f: f.key):
     if f.cls != "ReachabilityAnalyzer" or f.kind == "CXXConstructorDecl":
       continue
     if f.key in (sc.add_node.key, sc.add_conn.key):
       continue
     w = [ev.what for ev in cxx.events(ix, f.body, {}) if ev.kind in ("write", "addr")
          and ev.what.startswith("ReachabilityAnalyzer::")]
+    if f.key in sym.inlined:
+      # a helper whose statements were matched in place above: it must not be
+      # reachable from anywhere else
+      if callers is None:
+        callers = {}
+        for g in ix.by_key.values():
+          if g.body is None:
+            continue
+          for n in walk_sem(g.body):
+            if n.get("kind") in ("CXXMemberCallExpr", "CallExpr"):
+              key = ix.callee(n)[0]
+              if key in sym.inlined:
+                callers.setdefault(key, set()).add(g.key)
+      allowed = {sc.add_node.key, sc.add_conn.key, sc.is_reach.key} | set(sym.inlined)
+      extra = sorted(callers.get(f.key, set()) - allowed)
+      writes_via_params = any(
+          canon_type(desugared(p)).endswith(("*", "&")) and
+          "const" not in desugared(p).split("*")[0].split("&")[0]
+          for p in f.params)
+      if w or writes_via_params:
+        ctx.check(not extra, f"no-other-writer:{f.key}", f.file, f.line,
+                  f"{f.key} writes the matrix and is also called from {extra}; "
+                  "only add_node/add_connection may change the matrix",
+                  {"writes": w, "other_callers": extra, "inlined": True})
+        continue
     ctx.check(not w, f"no-other-writer:{f.key}", f.file, f.line,
               f"{f.key} writes {w}; only add_node/add_connection may change the matrix",
               {"writes": w})
 
 
 def _calls_to(ix, fn, qual):
-  out = []
-  if fn.body is None:
-    return out
-  for n in cxx.walk(fn.body):
-    if n.get("kind") in ("CXXMemberCallExpr", "CallExpr"):
-      key, callee, nm, obj = ix.callee(n)
-      if key and key.split("(")[0] == qual:
-        out.append(n)
-  return out
+  return calls_to(ix, fn.body, qual)
 
 
 @rule("R9.2", "C09", floor=3)
@@ -489,9 +528,41 @@ def r9_2(ctx):
             f"CFGNode::id() returns {r}, not id_", {"ret": str(r)})
 
 
+def _hoisted(ix, fn):
+  """Substitution environment of fn's single-assignment locals whose
+  definition has no side effect (`const auto from_id = node->id();`)."""
+  from rules._util_c09c04 import assigned_locals
+  reassigned = assigned_locals(fn)
+  env = {}
+  for n in walk_sem(fn.body):
+    if n.get("kind") != "DeclStmt":
+      continue
+    for v in inner(n):
+      if v.get("kind") != "VarDecl" or v["id"] in reassigned:
+        continue
+      kids = [c for c in inner(v) if c.get("kind")]
+      if not kids or kids[-1].get("kind") == "LambdaExpr":
+        continue
+      t = term(ix, kids[-1], env)
+      stale = any(x[0] == "var" and len(x) == 3 and x[2] in reassigned
+                  for x in subterms(t))
+      if pure_term(t) and not stale:
+        env[v["id"]] = t
+  return env
+
+
+def _params_fixed(fn, what):
+  from rules._util_c09c04 import assigned_locals
+  if {p["id"] for p in fn.params} & assigned_locals(fn):
+    raise AnalysisError(f"{what}: a parameter is reassigned; argument roles "
+                        "cannot be read off the parameter names")
+
+
 def _role_args(ix, call, fn):
-  """Terms of the arguments of `call` with fn's params/this named by role."""
-  return [uncast(term(ix, a)) for a in inner(call)[1:]]
+  """Terms of the arguments of `call` with fn's params/this named by role;
+  arguments hoisted into named locals are replaced by their definition."""
+  env = _hoisted(ix, fn)
+  return [uncast(term(ix, a, env)) for a in inner(call)[1:]]
 
 
 @rule("R9.3", "C09", floor=4)
@@ -508,6 +579,7 @@ def r9_3(ctx):
   if len(calls) != 1:
     raise AnalysisError("ConnectTo: add_connection call not found")
   a = _role_args(ix, calls[0], ct)
+  _params_fixed(ct, "ConnectTo")
   writer = None
   if a == [ID(p), ID(("this",))]:
     writer = "backward"    # add_connection(src=new successor, dst=this)
@@ -536,7 +608,10 @@ def r9_3(ctx):
   if len(calls) != 1:
     raise AnalysisError("Program::is_reachable: analyzer query not found")
   a = _role_args(ix, calls[0], pr)
+  _params_fixed(pr, "Program::is_reachable")
   want = [ID(d), ID(s)] if writer == "backward" else [ID(s), ID(d)]
+  if sorted(map(str, a)) != sorted(map(str, want)):
+    raise AnalysisError(f"Program::is_reachable: analyzer query arguments not understood: {a}")
   ctx.check(a == want, "Program::is_reachable:orientation", pr.file, pr.line,
             f"the matrix is written {writer}; Program::is_reachable(src,dst) "
             f"must query {want}, queries {a}", {"args": str(a), "writer": writer})
@@ -549,6 +624,9 @@ def r9_3(ctx):
   is_this = lambda t: t == ID(("this",))
   is_where = lambda t: isinstance(t, tuple) and t[0] == "mcall" and \
       "CFGNode::id" in str(t[1]) and "Origin::where" in str(t[2])
+  if len(a) != 2 or not ((is_this(a[0]) and is_where(a[1])) or
+                         (is_where(a[0]) and is_this(a[1]))):
+    raise AnalysisError(f"CanHaveCombination: analyzer query arguments not understood: {a}")
   ok = (is_this(a[0]) and is_where(a[1])) if writer == "backward" else \
       (is_where(a[0]) and is_this(a[1]))
   ctx.check(ok, "CanHaveCombination:orientation", ch.file, ch.line,
@@ -589,6 +667,98 @@ def r9_3(ctx):
 def _tg(n):
   return f"pytype/typegraph/{n}"
 
+
+_ADD_CONN_BODY = (
+    "  std::int64_t src_bit = _node_bit(src);\n"
+    "  int src_pos = src / 64;\n"
+    "  std::int64_t* row_dst = adj_[dst].data();\n"
+    "  for (int i = 0; i < num_nodes_; i++) {\n"
+    "    if (adj_[i][src_pos] & src_bit) {\n"
+    "      // i is connected to src\n"
+    "      std::int64_t* row_i = adj_[i].data();\n"
+    "      for (int j = 0; j < size_; j++) {\n"
+    "        row_i[j] |= row_dst[j];  // if dst is connected to j, connect i and j\n"
+    "      }\n"
+    "    }\n"
+    "  }\n")
+# range-for + continue-guard + shift spelling of the same function body
+_ADD_CONN_RANGEFOR = (
+    "  const std::int64_t src_mask = _node_bit(src);\n"
+    "  const int src_word = src >> 6;\n"
+    "  const std::int64_t* from = adj_[dst].data();\n"
+    "  for (auto& row : adj_) {\n"
+    "    if (!(row[src_word] & src_mask)) {\n"
+    "      continue;\n"
+    "    }\n"
+    "    std::int64_t* into = row.data();\n"
+    "    for (int w = 0; w < size_; w++) {\n"
+    "      into[w] |= from[w];\n"
+    "    }\n"
+    "  }\n")
+# add_node / add_connection / is_reachable split into private helpers
+_SPLIT_EDITS = [
+    (_tg("reachable.h"), "  std::vector<std::vector<std::int64_t>> adj_;",
+     "  using Row = std::vector<std::int64_t>;\n"
+     "  static bool has_bit(const Row& row, int node);\n"
+     "  void grow_rows();\n"
+     "  void merge_row(Row* into, const Row& from) const;\n"
+     "  std::vector<Row> adj_;"),
+    (_tg("reachable.cc"), "int ReachabilityAnalyzer::add_node() {",
+     "bool ReachabilityAnalyzer::has_bit(const Row& row, const int node) {\n"
+     "  return row[node / 64] & _node_bit(node) ? true : false;\n"
+     "}\n\n"
+     "void ReachabilityAnalyzer::grow_rows() {\n"
+     "  adj_.resize(num_nodes_);\n"
+     "  for (int i = 0; i < num_nodes_; i++) {\n"
+     "    adj_[i].resize(size_, 0);\n"
+     "  }\n"
+     "}\n\n"
+     "void ReachabilityAnalyzer::merge_row(Row* into, const Row& from) const {\n"
+     "  std::int64_t* row_into = into->data();\n"
+     "  const std::int64_t* row_from = from.data();\n"
+     "  for (int j = 0; j < size_; j++) {\n"
+     "    row_into[j] |= row_from[j];\n"
+     "  }\n"
+     "}\n\n"
+     "int ReachabilityAnalyzer::add_node() {"),
+    (_tg("reachable.cc"),
+     "  adj_.resize(num_nodes_);\n  for (int i = 0; i < num_nodes_; i++) {\n"
+     "    adj_[i].resize(size_, 0);\n  }\n  adj_[node]",
+     "  grow_rows();\n  adj_[node]"),
+    (_tg("reachable.cc"), _ADD_CONN_BODY,
+     "  const Row& row_dst = adj_[dst];\n"
+     "  for (int i = 0; i < num_nodes_; i++) {\n"
+     "    if (has_bit(adj_[i], src)) {\n"
+     "      merge_row(&adj_[i], row_dst);\n"
+     "    }\n"
+     "  }\n"),
+    (_tg("reachable.cc"), "  return adj_[src][dst / 64] & _node_bit(dst) ? true : false;",
+     "  return has_bit(adj_[src], dst);"),
+]
+_CANHAVE_LOOP = (
+    "  for (const Binding* goal : bindings) {\n"
+    "    bool origin_reachable = false;\n"
+    "    for (const auto& origin : goal->origins()) {\n"
+    "      if (this->backward_reachability_->is_reachable(this->id(),\n"
+    "                                                     origin->where->id())) {\n"
+    "        origin_reachable = true;\n"
+    "        break;\n"
+    "      }\n"
+    "    }\n"
+    "    if (!origin_reachable) {\n"
+    "      return false;\n"
+    "    }\n"
+    "  }\n"
+    "  return true;\n")
+_CANHAVE_ANY_OF = (
+    "  return std::all_of(\n"
+    "      bindings.begin(), bindings.end(), [this](const Binding* goal) {\n"
+    "        const auto& origins = goal->origins();\n"
+    "        return std::any_of(\n"
+    "            origins.begin(), origins.end(), [this](const auto& origin) {\n"
+    "              return this->backward_reachability_->is_reachable(this->id(), origin->where->id());\n"
+    "            });\n"
+    "      });\n")
 
 VARIANTS = [
     {"name": "outer-bound-size", "rule": "R9.1", "file": _tg("reachable.cc"), "expect": "fire",
@@ -652,4 +822,72 @@ VARIANTS = [
     {"name": "twin-new-row-by-emplace_back", "rule": "R9.1", "file": _tg("reachable.cc"), "expect": "silent",
      "old": "  adj_.resize(num_nodes_);\n  for (int i = 0; i < num_nodes_; i++) {",
      "new": "  adj_.emplace_back(size_, 0);\n  for (int i = 0; i < num_nodes_; i++) {"},
+    # -- behaviour-preserving refactorings (whole patches) must stay silent --------
+    {"name": "twin-benign-C09-r1-rangefor-shift-helper", "rule": "R9.1", "patch": "benign/C09-r1/patch.diff", "expect": "silent"},
+    {"name": "twin-benign-C09-r2-any_of-all_of-lambdas", "rule": "R9.3", "patch": "benign/C09-r2/patch.diff", "expect": "silent"},
+    {"name": "twin-benign-C09-r3-hoisted-ids", "rule": "R9.3", "patch": "benign/C09-r3/patch.diff", "expect": "silent"},
+    {"name": "twin-benign-C09-r4-row-alias-split-helpers", "rule": "R9.1", "patch": "benign/C09-r4/patch.diff", "expect": "silent"},
+    {"name": "twin-benign-C07-r4-continue-guard-none_of", "rule": "R9.1", "patch": "benign/C07-r4/patch.diff", "expect": "silent"},
+    # -- the same shapes with a defect must still fire -------------------------------
+    {"name": "rangefor-shape-guard-tests-dst", "rule": "R9.1", "file": _tg("reachable.cc"), "expect": "fire",
+     "old": _ADD_CONN_BODY, "new": _ADD_CONN_RANGEFOR.replace("_node_bit(src)", "_node_bit(dst)").replace("src >> 6", "dst >> 6")},
+    {"name": "twin-rangefor-shape", "rule": "R9.1", "file": _tg("reachable.cc"), "expect": "silent",
+     "old": _ADD_CONN_BODY, "new": _ADD_CONN_RANGEFOR},
+    {"name": "rangefor-shape-or-from-src-row", "rule": "R9.1", "file": _tg("reachable.cc"), "expect": "fire",
+     "old": _ADD_CONN_BODY, "new": _ADD_CONN_RANGEFOR.replace("adj_[dst].data()", "adj_[src].data()")},
+    {"name": "continue-guard-wrong-polarity", "rule": "R9.1", "file": _tg("reachable.cc"), "expect": "fire",
+     "old": _ADD_CONN_BODY, "new": _ADD_CONN_RANGEFOR.replace("if (!(row[src_word] & src_mask)) {", "if (row[src_word] & src_mask) {")},
+    {"name": "rangefor-bucket-loop-stops-early", "rule": "R9.1", "file": _tg("reachable.cc"), "expect": "fire",
+     "old": _ADD_CONN_BODY, "new": _ADD_CONN_RANGEFOR.replace("w < size_;", "w < size_ - 1;")},
+    {"name": "rangefor-break-after-first-row", "rule": "R9.1", "file": _tg("reachable.cc"), "expect": "error",
+     "old": _ADD_CONN_BODY, "new": _ADD_CONN_RANGEFOR.replace("      into[w] |= from[w];\n    }\n", "      into[w] |= from[w];\n    }\n    break;\n")},
+    {"name": "rangefor-by-value-resizes-copies", "rule": "R9.1", "file": _tg("reachable.cc"), "expect": "error",
+     "old": "  for (int i = 0; i < num_nodes_; i++) {\n    adj_[i].resize(size_, 0);\n  }",
+     "new": "  for (auto row : adj_) {\n    row.resize(size_, 0);\n  }"},
+    {"name": "twin-rangefor-resize", "rule": "R9.1", "file": _tg("reachable.cc"), "expect": "silent",
+     "old": "  for (int i = 0; i < num_nodes_; i++) {\n    adj_[i].resize(size_, 0);\n  }",
+     "new": "  for (auto& row : adj_) {\n    row.resize(size_, 0);\n  }"},
+    {"name": "rangefor-resize-before-new-row-exists", "rule": "R9.1", "file": _tg("reachable.cc"), "expect": "fire",
+     "old": "  adj_.resize(num_nodes_);\n  for (int i = 0; i < num_nodes_; i++) {\n    adj_[i].resize(size_, 0);\n  }",
+     "new": "  for (auto& row : adj_) {\n    row.resize(size_, 0);\n  }\n  adj_.resize(num_nodes_);"},
+    {"name": "word-helper-shifts-by-5", "rule": "R9.1", "expect": "fire",
+     "edits": [(_tg("reachable.cc"), "ReachabilityAnalyzer::ReachabilityAnalyzer() : num_nodes_(0) {",
+                "static inline int _node_word(int node_id) {\n  return node_id >> 5;\n}\n\nReachabilityAnalyzer::ReachabilityAnalyzer() : num_nodes_(0) {"),
+               (_tg("reachable.cc"), "  int src_pos = src / 64;", "  int src_pos = _node_word(src);")]},
+    {"name": "twin-word-helper", "rule": "R9.1", "expect": "silent",
+     "edits": [(_tg("reachable.cc"), "ReachabilityAnalyzer::ReachabilityAnalyzer() : num_nodes_(0) {",
+                "static inline int _node_word(int node_id) {\n  return node_id >> 6;\n}\n\nReachabilityAnalyzer::ReachabilityAnalyzer() : num_nodes_(0) {"),
+               (_tg("reachable.cc"), "  int src_pos = src / 64;", "  int src_pos = _node_word(src);"),
+               (_tg("reachable.cc"), "adj_[node][node / 64] = _node_bit(node);", "adj_[node][_node_word(node)] = _node_bit(node);"),
+               (_tg("reachable.cc"), "  return adj_[src][dst / 64] & _node_bit(dst) ? true : false;",
+                "  return (adj_[src][_node_word(dst)] & _node_bit(dst)) != 0;")]},
+    {"name": "bit-helper-returns-int", "rule": "R9.1", "file": _tg("reachable.cc"), "expect": "fire",
+     "old": "static inline std::int64_t _node_bit(int node_id) {", "new": "static inline int _node_bit(int node_id) {"},
+    {"name": "query-truncated-to-int-before-test", "rule": "R9.1", "file": _tg("reachable.cc"), "expect": "fire",
+     "old": "  return adj_[src][dst / 64] & _node_bit(dst) ? true : false;",
+     "new": "  return static_cast<int>(adj_[src][dst / 64] & _node_bit(dst)) != 0;"},
+    {"name": "src-bit-kept-in-int-local", "rule": "R9.1", "file": _tg("reachable.cc"), "expect": "fire",
+     "old": "  std::int64_t src_bit = _node_bit(src);", "new": "  int src_bit = _node_bit(src);"},
+    {"name": "twin-split-helpers", "rule": "R9.1", "expect": "silent", "edits": _SPLIT_EDITS},
+    {"name": "split-helpers-merge-row-ands", "rule": "R9.1", "expect": "fire",
+     "edits": _SPLIT_EDITS + [(_tg("reachable.cc"), "    row_into[j] |= row_from[j];", "    row_into[j] &= row_from[j];")]},
+    {"name": "split-helpers-grow_rows-only-new-row", "rule": "R9.1", "expect": "fire",
+     "edits": _SPLIT_EDITS + [(_tg("reachable.cc"), "  adj_.resize(num_nodes_);\n  for (int i = 0; i < num_nodes_; i++) {\n    adj_[i].resize(size_, 0);\n  }\n}",
+                               "  adj_.resize(num_nodes_);\n  adj_[num_nodes_ - 1].resize(size_, 0);\n}")]},
+    {"name": "split-helpers-writer-helper-has-another-caller", "rule": "R9.1", "expect": "fire",
+     "edits": _SPLIT_EDITS + [(_tg("reachable.h"), "  std::size_t size() const { return size_; }",
+                               "  std::size_t size() const { return size_; }\n  void shrink() { num_nodes_ = 0; grow_rows(); }")]},
+    {"name": "hoisted-writer-ids-swapped", "rule": "R9.3", "file": _tg("typegraph.cc"), "expect": "fire",
+     "old": "  this->backward_reachability_->add_connection(node->id(), this->id());",
+     "new": "  const auto from_id = this->id();\n  const auto to_id = node->id();\n  this->backward_reachability_->add_connection(from_id, to_id);"},
+    {"name": "twin-hoisted-writer-ids", "rule": "R9.3", "file": _tg("typegraph.cc"), "expect": "silent",
+     "old": "  this->backward_reachability_->add_connection(node->id(), this->id());",
+     "new": "  const auto from_id = node->id();\n  const auto to_id = id();\n  backward_reachability_->add_connection(from_id, to_id);"},
+    {"name": "hoisted-id-of-reassigned-pointer", "rule": "R9.3", "file": _tg("typegraph.cc"), "expect": "error",
+     "old": "  return backward_reachability_->is_reachable(dst->id(), src->id());",
+     "new": "  const auto a = dst->id();\n  dst = src;\n  const auto b = dst->id();\n  return backward_reachability_->is_reachable(a, b);"},
+    {"name": "any_of-lambda-query-swapped", "rule": "R9.3", "file": _tg("typegraph.cc"), "expect": "fire",
+     "old": _CANHAVE_LOOP, "new": _CANHAVE_ANY_OF.replace("is_reachable(this->id(), origin->where->id())", "is_reachable(origin->where->id(), this->id())")},
+    {"name": "twin-any_of-lambda-query", "rule": "R9.3", "file": _tg("typegraph.cc"), "expect": "silent",
+     "old": _CANHAVE_LOOP, "new": _CANHAVE_ANY_OF},
 ]
